@@ -44,6 +44,9 @@ def cells(tier):
     for old, new in [(1, 2), (1, 1), (2, 1)]:
         sc = scen(pool(old), [[A("A", old + 3)], [["set_size", "inf"], ["set_size", new]]], outcomes=["ret"])
         out.append(cell(f"{old}->inf->{new} A{old + 3} (spawners waiting)", sc, MON + ["C02"]))
+    for old, seq in [(0, [2]), (0, [1, 0]), (1, [0, 2])]:
+        sc = scen(pool(old, "SimpleTaskPool"), [[S("S", 3)], [["set_size", v] for v in seq]], outcomes=["ret"])
+        out.append(cell(f"simple {old}->{seq} S3", sc, MON))
     sc = scen(pool(1, "SimpleTaskPool"), [[S("S", 3)], [["set_size", 2]], [["set_size", 0]]], outcomes=["ret"])
     out.append(cell("simple 1->2,->0 S3", sc, MON))
     if not q:
